@@ -7,6 +7,7 @@ import QbeeModel.Model.Using
 import QbeeModel.Model.Instr
 import QbeeModel.Model.Module
 import QbeeModel.Model.Layout
+import QbeeModel.Model.ExprC
 /-
   Line-protocol driver for the executable models.  One request per line, one
   answer per line.  Unknown or malformed requests answer `bad-op`; the models
@@ -285,6 +286,35 @@ def handleLayout : List String → Option String
       | [] => none
   | _ => none
 
+def parseTy : String → Option Gen.Ty
+  | "i" => some .i | "l" => some .l | "s" => some .s | "d" => some .d | "str" => some .str | _ => none
+
+/-- expression trees in prefix form: `A ty` | `B op a b` | `U op a` -/
+partial def parseE : List String → Option (ExprC.E × List String)
+  | "A" :: t :: r => do let t ← parseTy t; pure (.atom t, r)
+  | "B" :: op :: r => do
+      let op ← op.toNat?
+      let (a, r1) ← parseE r
+      let (b, r2) ← parseE r1
+      pure (.bin op a b, r2)
+  | "U" :: op :: r => do
+      let op ← op.toNat?
+      let (a, r1) ← parseE r
+      pure (.un op a, r1)
+  | _ => none
+
+def tyTxt : Gen.Ty → String
+  | .i => "i" | .l => "l" | .s => "s" | .d => "d" | .str => "str"
+
+def handleCExpr (r : List String) : String :=
+  match parseE r with
+  | some (e, []) =>
+    match ExprC.ty e, ExprC.compileE e with
+    | some t, some code => "ok " ++ tyTxt t ++ " " ++ " ".intercalate (code.map toString)
+    | none, _ => "reject"
+    | some t, none => "nocode " ++ tyTxt t
+  | _ => "bad-op"
+
 def handle (toks : List String) : String :=
   match toks with
   | "print" :: r =>
@@ -370,6 +400,7 @@ def handle (toks : List String) : String :=
   | "input" :: r => (handleInput r).getD "bad-op"
   | ["module", hex] => handleModule hex
   | "layout" :: r => (handleLayout r).getD "bad-op"
+  | "cexpr" :: r => handleCExpr r
   | ["uscan", f] =>
     match decStr f with
     | some f => match Using.scanFmt f with
